@@ -300,7 +300,7 @@ Lemma to_anon_member bx : forall a, to_anon d m own bx = Ok a ->
   forall q v, anon_lookup a q = Some v -> exists t, member bx q = Ok t /\ pv_ok t v.
 Proof.
   induction bx as [cx|b pre|ms IH|i p|s] using bexpr_ind'; intros a H q v Hl.
-  - cbn [to_anon] in H. inversion H; subst a. destruct q; [|discriminate]. cbn [anon_lookup] in Hl. inversion Hl; subst v.
+  - cbn [to_anon] in H. destruct (bis_nc m cx); [discriminate|]. inversion H; subst a. destruct q; [|discriminate]. cbn [anon_lookup] in Hl. inversion Hl; subst v.
     exists (MTSx cx). split; [reflexivity|]. exists 0. reflexivity.
   - cbn [to_anon] in H. destruct (resolve_ref m own b pre) as [[v0|sc]|] eqn:Hr; cbn [bind] in H; [| |discriminate]; inversion H; subst a.
     + destruct q; [|discriminate]. cbn [anon_lookup] in Hl. inversion Hl; subst v. exists (MTSig b (pre ++ [])). split; [reflexivity|].
@@ -321,7 +321,7 @@ Qed.
 Lemma to_anon_nodup bx : bexpr_nodup bx = true -> forall a, to_anon d m own bx = Ok a -> anon_nodup a = true.
 Proof.
   induction bx as [cx|b pre|ms IH|i p|s] using bexpr_ind'; intros N a H.
-  - inversion H. reflexivity.
+  - cbn [to_anon] in H. destruct (bis_nc m cx); [discriminate|]. inversion H. reflexivity.
   - cbn [to_anon] in H. destruct (resolve_ref m own b pre) as [[v0|sc]|]; cbn [bind] in H; [| |discriminate]; inversion H; reflexivity.
   - rewrite to_anon_BXAnon in H. destruct (to_anon_list ms) as [ms'|] eqn:Hms; cbn [bind] in H; [|discriminate]. inversion H; subst a.
     cbn [bexpr_nodup] in N. apply andb_prop in N. destruct N as [N1 N2]. cbn [anon_nodup]. apply andb_true_intro. split.
